@@ -790,6 +790,22 @@ func c16peerset(c *an.Ctx) {
 		pe, ae := ps[0].elem, as[0].elem
 		good := false
 		if pe != nil && ae != nil {
+			// the peer handed on through a result variable (merged with the nil of the "already known" exit of a helper)
+			if _, isPhi := an.Strip(pe).(*ssa.Phi); isPhi {
+				var only ssa.Value
+				n := 0
+				an.OriginsAll(an.Strip(pe), func(o ssa.Value) bool {
+					if k, ok := an.Strip(o).(*ssa.Const); ok && k.IsNil() {
+						return true
+					}
+					only = o
+					n++
+					return true
+				})
+				if n == 1 {
+					pe = only
+				}
+			}
 			if call := an.CallResultOf(pe, newPeer); call != nil && an.SameValue(call.Call.Args[0], ae) {
 				good = true
 			}
